@@ -3,6 +3,7 @@ package main
 // C04 — expired keys never protect new data; C05 — revocation takes effect within the check interval (DESIGN §3).
 
 import (
+	"fmt"
 	"go/token"
 	"sort"
 	"strings"
@@ -23,7 +24,7 @@ func init() {
 		Assumptions: []string{"Metastore.LoadLatest returns the newest record (C13)", "time.Now is the process clock"},
 		Tech:        "static analysis: guarded-by-condition (dominating branch facts) on SSA, boolean-disjunct structure, value provenance",
 		NeedU1:      true,
-		Rules:       []func(*Ctx){ruleC04LatestRevalidated, ruleC04LoaderRejectsInvalid, ruleC04NewKeysStampedNow, ruleC05MergeIdentity, ruleC04FreshnessRenewal, ruleC04LatestMapMonotonic},
+		Rules:       []func(*Ctx){ruleC04LatestRevalidated, ruleC04LoaderRejectsInvalid, ruleC04NewKeysStampedNow, ruleC05MergeIdentity, ruleC04FreshnessRenewal, ruleC04LatestMapMonotonic, ruleC05FreshnessWriters},
 	})
 	register(&propSpec{
 		ID:            "C05",
@@ -38,7 +39,7 @@ func init() {
 		Assumptions: []string{"the loader passed to the cache re-reads the metastore (checked by C20.external-only-via-cache / C01 provenance rules)"},
 		Tech:        "static analysis: guarded-by-condition and must-pass-through on SSA over key_cache.go/envelope.go",
 		NeedU1:      true,
-		Rules:       []func(*Ctx){ruleC05StaleMeansReload, ruleC05ReloadRefreshes, ruleC05MergeIdentity, ruleC04LatestRevalidated, ruleC01NoValidityGateOnRead, ruleC08RefcountProtocol, ruleC04FreshnessRenewal},
+		Rules:       []func(*Ctx){ruleC05StaleMeansReload, ruleC05ReloadRefreshes, ruleC05MergeIdentity, ruleC04LatestRevalidated, ruleC01NoValidityGateOnRead, ruleC08RefcountProtocol, ruleC04FreshnessRenewal, ruleC05FreshnessWriters, ruleC13FieldFidelity, ruleC15SetStoresValue},
 	})
 }
 
@@ -793,5 +794,56 @@ func ruleC04LatestMapMonotonic(c *Ctx) {
 	}
 	if n == 0 {
 		c.bad("keyCache/mapLatestKeyMeta", "", "latest mapping is never updated")
+	}
+}
+
+// ruleC05FreshnessWriters: who may stamp an entry fresh. The revoke-check interval is measured from cacheEntry.loadedAt,
+// so the bound of C05/C04/C20 ("within one interval") holds only if loadedAt is set exclusively when the key's record
+// was just (re)read: by the entry constructor and by keyCache.load after its loader call. A stamp anywhere else (e.g. on
+// a cache hit) turns the interval into a sliding idle timeout: a busy session never re-reads the record.
+func ruleC05FreshnessWriters(c *Ctx) {
+	u := c.U1
+	c.rule("C05.freshness-only-from-reload", "cacheEntry.loadedAt is written only by newCacheEntry and by keyCache.load (after the loader call); no other function of the SDK renews or forges an entry's freshness, and isReloadRequired reads that field", 2)
+	load := u.Method(pkgApp, "keyCache", "load")
+	n := 0
+	for _, f := range u.RepoFuncs {
+		if f.Pkg == nil || f.Pkg.Pkg.Path() != pkgApp || f.Blocks == nil {
+			continue
+		}
+		allInstrs(f, func(i ssa.Instruction) {
+			st, ok := i.(*ssa.Store)
+			if !ok {
+				return
+			}
+			fa, isF := st.Addr.(*ssa.FieldAddr)
+			if !isF || fieldName(fa.X.Type(), fa.Field) != "loadedAt" {
+				return
+			}
+			n++
+			root := rootFunc(f)
+			construct := trimPkgDirs(shortName(f)) + "/loadedAt="
+			switch {
+			case root.Name() == "newCacheEntry":
+				c.ok(construct, u.ipos(i), "entry constructor")
+			case load != nil && root == load:
+				// after the loader call of load()
+				after := false
+				allInstrs(f, func(j ssa.Instruction) {
+					if cc := callOf(j); cc != nil && !cc.IsInvoke() && staticCallee(j) == nil {
+						if _, isCall := j.(*ssa.Call); isCall && instrDominates(j, i) {
+							if p, isP := cc.Value.(*ssa.Parameter); isP && strings.Contains(p.Type().String(), "func(") {
+								after = true
+							}
+						}
+					}
+				})
+				c.check(after, construct, u.ipos(i), "stamped after the loader call of load()", "load() stamps the entry fresh on a path that has not invoked the loader: the record was not re-read")
+			default:
+				c.bad(construct, u.ipos(i), "an entry's freshness stamp is written outside newCacheEntry/keyCache.load: the entry is declared fresh without its record having been re-read, so the revoke-check interval no longer bounds how long a revoked (or parent-expired) key keeps being used — e.g. stamping on every hit makes the interval a sliding idle timeout that a busy session never reaches")
+			}
+		})
+	}
+	if n < 2 {
+		c.bad("loadedAt/writers", "", fmt.Sprintf("expected at least 2 writers of cacheEntry.loadedAt (constructor, load), found %d", n))
 	}
 }
